@@ -100,6 +100,8 @@ type c18DcrReg struct {
 
 type c18Remote struct {
 	mu     sync.Mutex
+	// the embedder's HandleGrantFunc attaches additional claims to what it grants (suite_c18_claims.go)
+	EmbedderClaims bool
 	Gen    map[int]int
 	Down   map[int]bool
 	Sector map[int]int
@@ -168,7 +170,7 @@ func c18Resp(status int, body string) *http.Response {
 func c18InstallHooks() {
 	extraProviderOpts = func(w *World) []provider.ProviderOption {
 		if !c18SpecRemote(w.Spec) {
-			return nil
+			return c18EmbedderClaimsOpts(w)
 		}
 		ms := []goidc.ClientAuthnType{goidc.ClientAuthnNone, goidc.ClientAuthnPrivateKeyJWT}
 		opts := []provider.ProviderOption{
@@ -181,7 +183,7 @@ func c18InstallHooks() {
 		if c18SpecHas(w.Spec, "WithTokenRevocation") {
 			opts = append(opts, provider.WithTokenRevocation(func(*goidc.Client) bool { return w.allowed }, goidc.ClientAuthnSecretPost, ms...))
 		}
-		return opts
+		return append(opts, c18EmbedderClaimsOpts(w)...)
 	}
 	extraRoundTrip = func(w *World, r *http.Request) *http.Response {
 		var id int
@@ -381,6 +383,12 @@ func c18Describe(o Op) string {
 		return fmt.Sprintf("%s: sector_identifier_uri of client %d now answers variant %d (0 the client's URIs, 1 other URIs, 2 unavailable)", o.Kind, o.Client, o.D)
 	case c18OpNotifyEndpoint:
 		return fmt.Sprintf("%s: notification endpoint of client %d answers status %d (0: accepts)", o.Kind, o.Client, o.D)
+	case c18OpDiscovery:
+		return o.Kind + ": GET /.well-known/openid-configuration"
+	case c18OpJwks:
+		return o.Kind + ": GET /jwks"
+	case c18OpTokenInfoJSON:
+		return fmt.Sprintf("%s: the provider's TokenInfo helper on %s, its answer serialised with encoding/json", o.Kind, o.Tok.coq())
 	}
 	return fmt.Sprintf("%s client %d flags %d", o.Kind, o.Client, o.D)
 }
@@ -409,6 +417,8 @@ func c18ExecOp(w *World, o Op) Obs {
 			_ = w.Stores.C.Save(context.Background(), cs.build())
 		}
 		return Obs{Kind: "Ok"}
+	case c18OpDiscovery, c18OpJwks, c18OpTokenInfoJSON:
+		return c18ExecReadOnlyPseudo(w, o)
 	case c18OpRotateKeys:
 		return set(func() { st.Gen[o.Client]++ })
 	case c18OpJwksDown:
@@ -497,6 +507,9 @@ func c18StaticJwksURIClient(spec WorldSpec, id int) bool {
 const c18SigStaticKeyCache = "static-jwks_uri-client:keys-cached-for-the-life-of-the-instance"
 
 func c18Signature(spec WorldSpec, ops []Op, d *c18Difference) string {
+	if d.B < 0 { // an observation about one execution (a read-only endpoint wrote): the field is the signature
+		return d.Field
+	}
 	plain := ops[d.Op].Kind + ":" + d.Field
 	if d.Field == "store" || c18Execs[d.A].Fresh == c18Execs[d.B].Fresh {
 		return plain
